@@ -33,7 +33,7 @@ pool; and the only way to panic is a zero quotient. -/
 theorem tie_refund_gas (st : keeper_StateTransition) (q : Nat) (hq : 0 < q) (h : GasInv st) :
     ∃ obs, keeper_StateTransition_refundGas st q =
       some ({ st with gas := st.gas + refundOf st q },
-            [obs] ++ (if st.SenderPaidTheFee then [Go.Effect.mk "st.state.AddBalance" [((st.gas + refundOf st q : Nat) : Int) * st.gasPrice]] else [])
+            [obs] ++ (if st.SenderPaidTheFee then [Go.Effect.mk "st.state.AddBalance_st_msg_From" [((st.gas + refundOf st q : Nat) : Int) * st.gasPrice]] else [])
                   ++ [Go.Effect.mk "st.gp.AddGas" [((st.gas + refundOf st q : Nat) : Int)]]) := by
   unfold keeper_StateTransition_refundGas
   rw [tie_gas_used st h]
@@ -95,21 +95,21 @@ the account nonce, the nonce can still be incremented, the sender has no code, a
 not disabled — the fee cap is at least the tip and at least the base fee. -/
 theorem tie_pre_check_accepts (st st' : keeper_StateTransition) (eff : List Go.Effect)
     (h : keeper_StateTransition_preCheck st = some (none, st', eff)) (hf : st.msg_IsFake = false)
-    (hn : st.state_GetNonce < 2^64) :
-    st.state_GetNonce = st.msg_Nonce ∧ st.state_GetNonce + 1 < 2^64 ∧
+    (hn : st.state_GetNonce_st_msg_From < 2^64) :
+    st.state_GetNonce_st_msg_From = st.msg_Nonce ∧ st.state_GetNonce_st_msg_From + 1 < 2^64 ∧
     ¬ (st.cond_6871368b = true ∧ st.cond_efefb3c4 = true) ∧
     (st.evm_ChainConfig_IsLondon st.evm_Context_BlockNumber = true → st.evm_Config_NoBaseFee = false →
        st.gasTipCap ≤ st.gasFeeCap ∧ st.evm_Context_BaseFee ≤ st.gasFeeCap) := by
   unfold keeper_StateTransition_preCheck at h
   simp only [hf, Bool.not_false, if_true] at h
-  by_cases h1 : st.state_GetNonce < st.msg_Nonce
+  by_cases h1 : st.state_GetNonce_st_msg_From < st.msg_Nonce
   · simp [h1] at h
-  · by_cases h2 : st.state_GetNonce > st.msg_Nonce
+  · by_cases h2 : st.state_GetNonce_st_msg_From > st.msg_Nonce
     · simp [h1, h2] at h
-    · have heq : st.state_GetNonce = st.msg_Nonce := by omega
-      by_cases h3 : Go.uadd 64 st.state_GetNonce 1 < st.state_GetNonce
+    · have heq : st.state_GetNonce_st_msg_From = st.msg_Nonce := by omega
+      by_cases h3 : Go.uadd 64 st.state_GetNonce_st_msg_From 1 < st.state_GetNonce_st_msg_From
       · simp [h1, h2, h3] at h
-      · have hmax : st.state_GetNonce + 1 < 2^64 := by
+      · have hmax : st.state_GetNonce_st_msg_From + 1 < 2^64 := by
           unfold Go.uadd at h3; omega
         by_cases h4 : (st.cond_6871368b && st.cond_efefb3c4) = true
         · simp [h1, h2, h3, h4] at h
